@@ -95,7 +95,7 @@
 #define SVEQ_AT(q, a1, n1, a2, n2) (((n1) == (n2)) & IMPB(GK < (n1), RDQ(q, SAT(a1) + (GK < (n1) ? GK : 0)) == RDQ(q, SAT(a2) + (GK < (n1) ? GK : 0))))
 #define MAPCL ((*resp).headers)
 #ifdef PHB_OBS
-#define PHB_INV_OBS __CPROVER_loop_invariant(((GS < pos) & LINESTART(hs, GS) & (!CRLF_ATQ(hs, GS < pos ? GS : 0))) ==> !HM_OWS(RDQ(hs, GS < pos ? GS : 0)))
+#define PHB_INV_OBS __CPROVER_loop_invariant(((GS < pos) & LINESTART(hs, GS) & (!CRLF_ATQ(hs, GS < pos ? GS : 0))) ==> ((!HM_OWS(RDQ(hs, GS < pos ? GS : 0))) & (HB.seen != 0)))
 #else
 #define PHB_INV_OBS
 #endif
@@ -104,8 +104,8 @@
   /* the duplicate detector is in step with the field map: haveCL <=> a Content-Length value is stored, and clValue IS that value */ \
   __CPROVER_loop_invariant(haveCL == (MAPCL.has_cl != 0)) \
   __CPROVER_loop_invariant(haveCL ==> ((clValue.n == MAPCL.cl.second.n) & (HB.cl_off <= hs.n) & (clValue.n <= hs.n) & (HB.cl_off + clValue.n <= hs.n) & ((clValue.n == 0) | ((clValue.p == hs.p + HB.cl_off) & (MAPCL.cl.second.p == hs.p + HB.cl_off))))) \
-  /* every Content-Length line before pos (arbitrary GS) was seen and its value equals clValue */ \
-  __CPROVER_loop_invariant(((GS < pos) & LINESTART(hs, GS) & CLLINE(hs, GS)) ==> ((HB.seen != 0) & haveCL & (HB.s_va <= hs.n) & (HB.s_vn <= hs.n) & (HB.s_va + HB.s_vn <= hs.n) & SVEQ_AT(hs, HB.s_va, HB.s_vn, HB.cl_off, clValue.n)))
+  /* the line that starts at the arbitrary GS: once it has been filed under Content-Length, its value equals clValue */ \
+  __CPROVER_loop_invariant(((HB.seen != 0) & (HB.s_iscl != 0)) ==> (haveCL & (HB.s_va <= hs.n) & (HB.s_vn <= hs.n) & (HB.s_va + HB.s_vn <= hs.n) & SVEQ_AT(hs, HB.s_va, HB.s_vn, HB.cl_off, clValue.n)))
 #else
 #define PHB_INV_CL
 #endif
